@@ -57,6 +57,26 @@ def result_type_places(ctx):
         if r.get("syntax_error"):
             errs = ["syntax error"]
         verdict[(ty, pname, e)] = ("fits" if not errs else "mismatch" if any("type mismatch" in m or "cannot deduce" in m for m in errs) else "other:" + errs[0][:60], d, errs)
+    # object references: the class of the referenced object against the class the property takes, whether the reference is a constant (written into the .ui) or chosen
+    # at run time (set by the support code)
+    objs = [("edit", "QLineEdit"), ("act", "QAction"), ("lay", "QVBoxLayout"), ("sp", "QSpacerItem"), ("menu", "QMenu"), ("inner", "QLabel")]
+    rdoc = lambda b: ("import qmluic.QtWidgets\nQWidget {\n  QCheckBox { id: srcB }\n  QLineEdit { id: edit }\n  QAction { id: act }\n  QMenu { id: menu }\n"
+                      "  QVBoxLayout { id: lay; QLabel { id: inner } QSpacerItem { id: sp } }\n  QLabel { id: lbl; buddy: %s }\n}\n" % b)
+    rdocs = []
+    for o, c in objs:
+        rdocs += [rdoc(o), rdoc("{ if (srcB.checked) { return %s } return %s }" % (o, o)), rdoc("srcB.checked ? %s : %s" % (o, o))]
+    rres = qml.run_docs(vh, rdocs, mode="generate")
+    for k, (o, c) in enumerate(objs):
+        vs = []
+        for r in rres[3 * k:3 * k + 3]:
+            errs = [x["msg"] for x in r.get("diags", []) if x["kind"] == "error"] if isinstance(r, dict) else ["no result"]
+            vs.append("fits" if not errs else "refused")
+        ctx.count(("result-type-place", "buddy", o), True)
+        ctx.dist("result-type-place-object-reference")
+        if len(set(vs)) != 1:
+            ctx.violation("QLabel.buddy: a reference to `%s` (%s) is %s as a constant, %s as the result of a block and %s as the result of a conditional expression: the class of the object "
+                          "against the class of the property is one question" % (o, c, vs[0], vs[1], vs[2]),
+                          {"qml": rdocs[3 * k], "impl_output": vs, "theorem_or_correspondence": "S: result type vs property type in every place"})
     for ty, places in PLACES.items():
         ref = places[0][0]
         for pname, _ in places[1:]:
